@@ -83,6 +83,9 @@ var versions = func() []version {
 			"a/b/y.bin": pseudoRandom(40000, uint32(i+1)), // incompressible: the package is several copy buffers long
 			// a member that is itself an archive: a version is installed as it was stored, archives inside it included
 			"z.zip": tinyZip(fmt.Sprintf("inner-%d.txt", i), strings.Repeat(fmt.Sprintf("v%d;", i), 10)),
+			// paths no other version has: a tree that holds one version plus left-overs of another matches none
+			fmt.Sprintf("only-in-v%d/deep/e.txt", i): fmt.Sprintf("e%d", i),
+			fmt.Sprintf("a/only-in-v%d.txt", i):      fmt.Sprintf("f%d", i),
 		})
 	}
 	return vs
@@ -348,6 +351,11 @@ func body(sc scenario) func(x *gosim.Exec) {
 				time.Sleep(time.Millisecond)
 			}
 		}
+		// every client fetches into ONE destination of its own, again and again, and that destination is not empty to begin
+		// with: it holds a version nobody stores (v3). A Fetch installs exactly the version it fetched there
+		for c := 0; c < n; c++ {
+			writeTree(backend, fmt.Sprintf("/dest/c%d/tree", c), versions[3])
+		}
 		setupDone := make(chan struct{})
 		close(setupDone)
 		clientsDone := make(chan int, n)
@@ -374,7 +382,8 @@ func body(sc scenario) func(x *gosim.Exec) {
 						w.outcome[c] += map[bool]string{true: "S", false: "s"}[err == nil]
 					case "Fetch":
 						w.curOp[c] = "Fetch"
-						dest := fmt.Sprintf("/dest/c%d/op%d", c, j)
+						dest := fmt.Sprintf("/dest/c%d/tree", c)
+						_ = j
 						fetchBegan := w.events
 						err := cache.Fetch(x.Ctx(), key, dest)
 						x.Note("client%d Fetch = %v", c, err)
@@ -626,6 +635,8 @@ func scenarios(t *testing.T) []scenario {
 		add(cache, 0, 1, []op{S(1), F}, []op{F, S(2)})
 		add(cache, 0, 1, []op{S(1)}, []op{C, F})
 		add(cache, 0, 2, []op{S(1)}, []op{F, S(2)})
+		// one client looks the entry up twice, another stores in between
+		add(cache, 0, 1, []op{F, F}, []op{S(2)})
 		if cache == "immutable" {
 			add(cache, 0, 2, []op{S(1)}, []op{C, F}) // CleanEntry overtaken by a complete Store needs two deviations
 			// two versions already stored: a Fetch that listed them is overtaken by a Store of a third and a CleanEntry that
@@ -640,6 +651,8 @@ func scenarios(t *testing.T) []scenario {
 			add(cache, 0, 1, []op{S(1)}, []op{S(2)}, []op{F})
 			add(cache, 0, 1, []op{S(1)}, []op{F}, []op{C})
 			add(cache, -1, 2, []op{S(1)}, []op{S(2), F})
+			add(cache, 0, 2, []op{F, F}, []op{S(2)})
+			add(cache, 1, 1, []op{F, F}, []op{S(2), C})
 		}
 	}
 	// fault part: every backend operation k of Store(v1)
